@@ -86,7 +86,9 @@ def rand_spec(profile, seed):
             cands = [s for reg in M["regions"] for s in reg if s not in M["kinds"]]
             s = rnd.choice(cands)
             M["kinds"][s] = "sub:M%d" % ch
-    pool = []
+    pools = [[] for _ in machines]      # guard leaves are shared between rows of one machine, never across machines: a
+                                        # plan addresses "the n-th evaluation of leaf g in this op", which must not depend
+                                        # on how many levels a back-end consults
     for mi, M in enumerate(machines):
         explicit = {}
         entry_pts = {}
@@ -113,6 +115,7 @@ def rand_spec(profile, seed):
         if profile in ("hist", "pseudo") and shape[mi] > 0:
             M["history"] = rnd.choice(["none", "always", "shallow:" + ",".join(rnd.sample(events[:nev], rnd.randint(1, 2)))])
     for mi, M in enumerate(machines):
+        pool = pools[mi]
         nrows = rnd.randint(6, 12)
         for ri, reg in enumerate(M["regions"]):
             normal = [s for s in reg if M["kinds"].get(s, "") not in ("entry_pt",) and not M["kinds"].get(s, "").startswith("exit_pt")]
@@ -135,6 +138,7 @@ def rand_spec(profile, seed):
         # rows of the parent that use the pseudo states of this machine
         if shape[mi] > 0:
             P = machines[parents[mi]]
+            ppool = pools[parents[mi]]
             substate = [s for s, k in P["kinds"].items() if k == "sub:" + M["name"]][0]
             preg = [r for r in P["regions"] if substate in r][0]
             others = [s for s in preg if s != substate and not P["kinds"].get(s, "").startswith("exit_pt") and P["kinds"].get(s, "") != "entry_pt"]
@@ -146,12 +150,12 @@ def rand_spec(profile, seed):
                         tg = "|".join("%s.%s" % (substate, M["_explicit"][r]) for r in regs)
                         P["rows"].append("%s + %s%s -> %s" % (rnd.choice(others), rnd.choice(events[:nev]), actions(), tg))
                 for ri, (ep, epev) in M["_entry_pts"].items():
-                    P["rows"].append("%s + %s%s%s -> %s.%s" % (rnd.choice(others), epev, guard(pool), actions(), substate, ep))
+                    P["rows"].append("%s + %s%s%s -> %s.%s" % (rnd.choice(others), epev, guard(ppool), actions(), substate, ep))
                 for ri, (xp, xev) in M["_exit_pts"].items():
                     P["rows"].append("%s.%s + %s%s -> %s" % (substate, xp, xev, actions(), rnd.choice(others)))
                 # make sure the sub-machine can be entered and left
                 P["rows"].append("%s + %s%s -> %s" % (rnd.choice(others), rnd.choice(events[:nev]), actions(), substate))
-                P["rows"].append("%s + %s%s%s -> %s" % (substate, rnd.choice(events[:nev]), guard(pool), actions(), rnd.choice(others)))
+                P["rows"].append("%s + %s%s%s -> %s" % (substate, rnd.choice(events[:nev]), guard(ppool), actions(), rnd.choice(others)))
         # sm-internal and state-local internal tables
         if rnd.random() < 0.5:
             M["internal"] = ["%s%s / %s" % (rnd.choice(events[:nev]), guard(pool), new_act()) for _ in range(rnd.randint(1, 2))]
@@ -161,19 +165,21 @@ def rand_spec(profile, seed):
                     M["state"].setdefault(s, {})["internal"] = ["%s%s / %s" % (rnd.choice(events[:nev]), guard(pool), new_act())]
         if profile == "compl":
             # completion rows only "forward" in the region's state order: chains terminate
-            cpool = []
+            # the guard leaves of a completion row belong to its source state (the value is latched on entry of that state)
             for reg in M["regions"]:
                 simple = [s for s in reg if s not in M["kinds"]]
                 for i, s in enumerate(simple[:-1]):
                     if rnd.random() < 0.6:
-                        tgt = rnd.choice(simple[i + 1:])
-                        g = ""
-                        if rnd.random() < 0.7:
-                            cg = new_leaf() if (not cpool or rnd.random() < 0.6) else rnd.choice(cpool)
-                            if cg not in cpool:
-                                cpool.append(cg)
-                            g = " [%s]" % cg
-                        M["rows"].append("%s%s%s -> %s" % (s, g, actions(), tgt))
+                        cpool = []
+                        for _ in range(rnd.choice([1, 1, 2])):        # sometimes two conflicting completion rows
+                            tgt = rnd.choice(simple[i + 1:])
+                            g = ""
+                            if rnd.random() < 0.7:
+                                cg = new_leaf() if (not cpool or rnd.random() < 0.6) else rnd.choice(cpool)
+                                if cg not in cpool:
+                                    cpool.append(cg)
+                                g = " [%s]" % cg        # a single positive leaf: its latched value is the guard's value
+                            M["rows"].append("%s%s%s -> %s" % (s, g, actions(), tgt))
         rnd.shuffle(M["rows"])
     for M in machines:
         for k in ("_explicit", "_entry_pts", "_exit_pts"):
